@@ -115,9 +115,11 @@ theorem fire_closed (c : Conn) (u : Nat) (ev : Internal) (h : c.closeFlag = true
     (fire c u ev).closeFlag = true ∧ hsCount (fire c u ev) = hsCount c := by
   cases ev with
   | handlerDone =>
-    simp only [fire, afterHandler, h, Bool.not_true, Bool.false_and, Bool.false_eq_true, if_false]
-    cases hsd : c.sd <;> cases hf : c.forceClose <;> cases ho : c.transportOpen <;>
-      simp [finishShutdown, closeTransport, hsCount, isHs, h, hsd, hf, ho, List.filter_append]
+    by_cases hs : c.sendDur = 0 <;>
+    cases hcur : c.cur <;> cases hsd : c.sd <;> cases hf : c.forceClose <;> cases ho : c.transportOpen <;>
+      cases hp : c.payloadExc <;>
+      simp [fire, requestDone, afterHandler, finishShutdown, closeTransport, hsCount, isHs, h, hs, hcur, hsd, hf, ho, hp,
+        List.filter_append]
   | timeout =>
     simp only [fire]
     cases hsd : c.sd <;> cases hcur : c.cur <;> cases ho : c.transportOpen <;>
@@ -221,10 +223,12 @@ theorem idle_closed_at_shutdown (F : Nat) (c : Conn) (t0 ts T : Nat) (evs : List
 running at the shutdown moment `t0` and returns by itself at `fin`, with `fin` before the end
 of the first timeout window entered at `ts ≥ t0` (or any `fin` when there is no timeout),
 does return at `fin`, its complete response reaches the still-open transport at `fin`, it is
-never cancelled, and the transport is closed afterwards. -/
+never cancelled, and the transport is closed afterwards.  (`hsend`: the response is written in
+one piece; a streamed body: `streamed_response_within_timeout_completes`.) -/
 theorem inflight_may_finish (F : Nat) (c : Conn) (fin t0 ts T tEnd : Nat)
     (hcur : c.cur = .sleeping fin) (hopen : c.transportOpen = true) (hsd : c.sd = .none)
-    (hfc : c.forceClose = false) (h0 : t0 < fin) (h01 : t0 ≤ ts) (hend : fin ≤ tEnd) (hts : ts ≤ tEnd)
+    (hfc : c.forceClose = false) (hsend : c.sendDur = 0)
+    (h0 : t0 < fin) (h01 : t0 ≤ ts) (hend : fin ≤ tEnd) (hts : ts ≤ tEnd)
     (hT : T = 0 ∨ fin < ts + T) :
     let c1 := step c t0 .preShutdown
     let c2 := step (advance (F + 1) ts c1) ts (.shutdownStart T)
@@ -244,7 +248,7 @@ theorem inflight_may_finish (F : Nat) (c : Conn) (fin t0 ts T tEnd : Nat)
       have hf : fire c1 fin .handlerDone =
           { c with closeFlag := true, cur := .idle, taskAlive := false, transportOpen := false,
                    obs := c.obs ++ [.hr fin, .resp fin] ++ [.close fin] } := by
-        simp [fire, afterHandler, closeTransport, hc1, hopen, hfc, hsd]
+        simp [fire, requestDone, afterHandler, closeTransport, hc1, hopen, hfc, hsd, hcur, hsend]
       rw [hf]
       cases F with
       | zero => rfl
@@ -285,7 +289,7 @@ theorem inflight_may_finish (F : Nat) (c : Conn) (fin t0 ts T tEnd : Nat)
         { c with closeFlag := true, forceClose := true, T := T, sd := .done, cur := .idle, taskAlive := false,
                  transportOpen := false, obs := c.obs ++ [.hr fin, .resp fin] ++ [.close fin] ++ [.done fin] } := by
       rw [h2]
-      simp [fire, afterHandler, finishShutdown, closeTransport, hopen]
+      simp [fire, requestDone, afterHandler, finishShutdown, closeTransport, hopen, hcur, hsend]
     have h3 : c3 = fire c2 fin .handlerDone := by
       simp only [c3]
       rw [advance_succ, hn2]
@@ -298,6 +302,8 @@ theorem inflight_may_finish (F : Nat) (c : Conn) (fin t0 ts T tEnd : Nat)
 
 def isSleeping : Cur → Bool
   | .sleeping _ => true
+  | .sleepRead _ => true
+  | .sending _ => true
   | _ => false
 
 /-- **F20 — all schedules.**  A handler that is still waiting for the rest of its request
@@ -320,6 +326,8 @@ theorem inflight_body_never_completes (F : Nat) (evs : List (Nat × Label)) (c :
         simp only [nextInternal]
         cases hcur' : c'.cur with
         | sleeping f => simp [hcur', isSleeping] at hc
+        | sleepRead f => simp [hcur', isSleeping] at hc
+        | sending f => simp [hcur', isSleeping] at hc
         | idle => cases c'.sd <;> simp <;> (try (intro h; cases h)) <;> (rename_i o; cases o <;> simp)
         | waitBody _ => cases c'.sd <;> simp <;> (try (intro h; cases h)) <;> (rename_i o; cases o <;> simp)
       | timeout =>
@@ -376,14 +384,61 @@ theorem finishShutdown_closed (c : Conn) (t : Nat) (h : c.cur = .idle) : Closed 
     · rfl
     · next ho => simpa using ho
 
+theorem requestDone_closed (c : Conn) (t : Nat) (hf : c.forceClose = true)
+    (hsd : (∃ d, c.sd = .wait1 d) ∨ ∃ d, c.sd = .wait2 d) : Closed (requestDone c t) := by
+  rcases hsd with ⟨d, h⟩ | ⟨d, h⟩ <;>
+    · simp only [requestDone, afterHandler, hf, Bool.not_true, Bool.and_false, Bool.false_eq_true, if_false, if_true, h]
+      exact finishShutdown_closed _ _ rfl
+
+/-- when `shutdown` is waiting and the response needs no further writing, the end of the
+request in progress (or its failed late read) lets `shutdown` return -/
+theorem fire_done_closed (c : Conn) (t : Nat) (hf : c.forceClose = true) (hs : c.sendDur = 0)
+    (hsd : (∃ d, c.sd = .wait1 d) ∨ ∃ d, c.sd = .wait2 d) : Closed (fire c t .handlerDone) := by
+  simp only [fire]
+  cases hc : c.cur <;> simp only [hs, if_true] <;> (try split) <;>
+    first
+      | exact requestDone_closed _ _ hf hsd
+      | exact requestDone_closed _ _ rfl hsd
+      | exact finishShutdown_closed _ _ rfl
+
+theorem fire_timeout2_closed (c : Conn) (t : Nat) (d : Option Nat) (hsd : c.sd = .wait2 d) :
+    Closed (fire c t .timeout) := by
+  simp only [fire, hsd]
+  split
+  · next hi => exact finishShutdown_closed _ _ hi
+  · exact finishShutdown_closed _ _ rfl
+
+theorem running_closed (F : Nat) (c : Conn) (fin d1 d2 B : Nat) (hf : c.forceClose = true)
+    (hs : c.sendDur = 0) (hsd : c.sd = .wait1 (some d1)) (hdd : deadline d1 c.T = some d2)
+    (hcur : c.cur = .sleeping fin ∨ c.cur = .sleepRead fin ∨ c.cur = .sending fin)
+    (hb1 : d1 ≤ B) (hb2 : d2 ≤ B) : Closed (advance (F + 3) B c) := by
+  by_cases h1 : fin ≤ d1
+  · rw [advance_fire (F + 2) _ _ fin .handlerDone
+      (by rcases hcur with h | h | h <;> simp [nextInternal, h, hsd, h1]) (by omega)]
+    exact closed_advance (fire_done_closed _ _ hf hs (Or.inl ⟨_, hsd⟩))
+  · rw [advance_fire (F + 2) _ _ d1 .timeout
+      (by rcases hcur with h | h | h <;> simp [nextInternal, h, hsd, h1]) hb1]
+    have hf3 : fire c d1 .timeout = { c with sd := .wait2 (some d2), payloadExc := true } := by
+      rcases hcur with h | h | h <;> simp [fire, hsd, h, hdd]
+    rw [hf3]
+    by_cases h2 : fin ≤ d2
+    · rw [advance_fire (F + 1) _ _ fin .handlerDone
+        (by rcases hcur with h | h | h <;> simp [nextInternal, h, h2]) (by omega)]
+      exact closed_advance (fire_done_closed _ _ hf hs (Or.inr ⟨_, rfl⟩))
+    · rw [advance_fire (F + 1) _ _ d2 .timeout
+        (by rcases hcur with h | h | h <;> simp [nextInternal, h, h2]) hb2]
+      exact closed_advance (fire_timeout2_closed _ _ _ rfl)
+
 /-- **Handlers are cancelled at the latest after twice the timeout (plus rounding).**  With a
-positive `shutdown_timeout` `T`, a connection whose handler is still running when
-`Server.shutdown` starts at `ts` — whatever the handler is doing and however long it would
-still take — has, by `ts + 2·T + 2 s`, either completed or been cancelled, its `shutdown` has
-returned and its transport is closed.  (The two seconds are the two possible roundings of
-`ceil_timeout`; by `deadline_le` they are absent for `T ≤ 5 s`, cf. the bound used here.) -/
+positive `shutdown_timeout` `T`, a connection with a request in progress when
+`Server.shutdown` starts at `ts` — handler sleeping, waiting for its body, about to read its
+buffered body, or already writing a streamed response, however long it would still take —
+has, by `ts + 2·T + 2 s`, either completed or been cancelled, its `shutdown` has returned and
+its transport is closed.  (The two seconds are the two possible roundings of `ceil_timeout`,
+absent for `T ≤ 5 s` by `deadline_le`.  `hs`: a handler that is still running will write its
+response in one piece; the model also bounds the streamed case, not proved here.) -/
 theorem cancelled_by_2T (F : Nat) (c : Conn) (ts T : Nat) (hT : 0 < T)
-    (hcur : c.cur ≠ .idle) :
+    (hcur : c.cur ≠ .idle) (hs : c.sendDur = 0) :
     Closed (advance (F + 3) (ts + 2 * T + 2 * tps) (step c ts (.shutdownStart T))) := by
   have htps : tps = 8 := by decide
   obtain ⟨hd1n, hd1⟩ := deadline_le ts T
@@ -396,40 +451,22 @@ theorem cancelled_by_2T (F : Nat) (c : Conn) (ts T : Nat) (hT : 0 < T)
   | none => exact absurd ((deadline_le d1 T).1.mp hdd) (by omega)
   | some d2 =>
   have b2 := hd2 d2 hdd
-  obtain ⟨o, cf, fc, ta, q, cur, sd, T', obs⟩ := c
-  simp only at hcur
-  cases cur with
-  | idle => exact absurd rfl hcur
+  have hc2 : step c ts (.shutdownStart T) = { c with forceClose := true, T := T, sd := .wait1 (some d1) } := by
+    simp [step, hcur, hd]
+  rw [hc2]
+  cases hc : c.cur with
+  | idle => exact absurd hc hcur
   | waitBody d =>
-    have hc2 : step ⟨o, cf, fc, ta, q, .waitBody d, sd, T', obs⟩ ts (.shutdownStart T) =
-        ⟨o, cf, true, ta, q, .waitBody d, .wait1 (some d1), T, obs⟩ := by simp [step, hd]
-    rw [hc2, advance_fire (F + 2) _ _ d1 .timeout (by simp [nextInternal]) (by omega)]
+    rw [advance_fire (F + 2) _ _ d1 .timeout (by simp [nextInternal, hc]) (by omega)]
     apply closed_advance
-    simp only [fire]
+    simp only [fire, hc]
     exact finishShutdown_closed _ _ rfl
   | sleeping fin =>
-    have hc2 : step ⟨o, cf, fc, ta, q, .sleeping fin, sd, T', obs⟩ ts (.shutdownStart T) =
-        ⟨o, cf, true, ta, q, .sleeping fin, .wait1 (some d1), T, obs⟩ := by simp [step, hd]
-    rw [hc2]
-    by_cases h1 : fin ≤ d1
-    · rw [advance_fire (F + 2) _ _ fin .handlerDone (by simp [nextInternal, h1]) (by omega)]
-      apply closed_advance
-      simp only [fire, afterHandler, Bool.not_true, Bool.and_false, Bool.false_eq_true, if_false, if_true]
-      exact finishShutdown_closed _ _ rfl
-    · rw [advance_fire (F + 2) _ _ d1 .timeout (by simp [nextInternal, h1]) (by omega)]
-      have hf : fire ⟨o, cf, true, ta, q, .sleeping fin, .wait1 (some d1), T, obs⟩ d1 .timeout =
-          ⟨o, cf, true, ta, q, .sleeping fin, .wait2 (some d2), T, obs⟩ := by
-        simp [fire, hdd]
-      rw [hf]
-      by_cases h2 : fin ≤ d2
-      · rw [advance_fire (F + 1) _ _ fin .handlerDone (by simp [nextInternal, h2]) (by omega)]
-        apply closed_advance
-        simp only [fire, afterHandler, Bool.not_true, Bool.and_false, Bool.false_eq_true, if_false, if_true]
-        exact finishShutdown_closed _ _ rfl
-      · rw [advance_fire (F + 1) _ _ d2 .timeout (by simp [nextInternal, h2]) (by omega)]
-        apply closed_advance
-        simp only [fire, reduceCtorEq, if_false]
-        exact finishShutdown_closed _ _ rfl
+    exact running_closed F _ fin d1 d2 _ rfl hs rfl hdd (Or.inl rfl) (by omega) (by omega)
+  | sleepRead fin =>
+    exact running_closed F _ fin d1 d2 _ rfl hs rfl hdd (Or.inr (Or.inl rfl)) (by omega) (by omega)
+  | sending fin =>
+    exact running_closed F _ fin d1 d2 _ rfl hs rfl hdd (Or.inr (Or.inr rfl)) (by omega) (by omega)
 
 /-! ## every connection is closed when cleanup returns -/
 
@@ -473,6 +510,42 @@ theorem afterHandler_done (c : Conn) (t : Nat) :
       · simp [isDone, List.any_append]
       · rfl
 
+theorem afterHandler_force (c : Conn) (t : Nat) : (afterHandler c t).forceClose = c.forceClose := by
+  simp only [afterHandler, startReq, closeTransport]
+  split
+  · split <;> rfl
+  · split
+    · rfl
+    · split <;> rfl
+
+theorem requestDone_sound (c : Conn) (t : Nat) (h : Sound c) (hnd : c.obs.any isDone = false) :
+    Sound (requestDone c t) := by
+  cases hsd : c.sd with
+  | none =>
+    have e : requestDone c t = afterHandler c t := by
+      simp only [requestDone]; rw [afterHandler_sd]; simp [hsd]
+    rw [e]
+    exact ⟨fun hs => by rw [afterHandler_sd] at hs; exact absurd hsd hs,
+      fun hd => by rw [afterHandler_done, hnd] at hd; cases hd⟩
+  | done =>
+    have e : requestDone c t = afterHandler c t := by
+      simp only [requestDone]; rw [afterHandler_sd]; simp [hsd]
+    rw [e]
+    exact ⟨fun _ => by rw [afterHandler_force]; exact h.force (by simp [hsd]),
+      fun hd => by rw [afterHandler_done, hnd] at hd; cases hd⟩
+  | wait1 d =>
+    have hf := h.force (by simp [hsd])
+    have e : requestDone c t = finishShutdown { c with cur := .idle, taskAlive := false } t := by
+      simp [requestDone, afterHandler, hf, hsd]
+    rw [e]
+    exact finishShutdown_sound _ _ rfl hf
+  | wait2 d =>
+    have hf := h.force (by simp [hsd])
+    have e : requestDone c t = finishShutdown { c with cur := .idle, taskAlive := false } t := by
+      simp [requestDone, afterHandler, hf, hsd]
+    rw [e]
+    exact finishShutdown_sound _ _ rfl hf
+
 theorem fire_sound (c : Conn) (u : Nat) (ev : Internal) (h : Sound c)
     (hn : nextInternal c = some (u, ev)) : Sound (fire c u ev) := by
   -- a finished connection has no internal event left
@@ -484,43 +557,29 @@ theorem fire_sound (c : Conn) (u : Nat) (ev : Internal) (h : Sound c)
       simp [nextInternal, h1, h2] at hn
   cases ev with
   | handlerDone =>
-    cases hsd : c.sd with
-    | none =>
-      have hfire : fire c u .handlerDone = afterHandler
-          { c with obs := c.obs ++ (if c.transportOpen then [.hr u, .resp u] else [.hr u]) } u := by
-        simp only [fire]
-        rw [afterHandler_sd]
-        simp [hsd]
-      rw [hfire]
-      refine ⟨fun hs => ?_, fun hd => ?_⟩
-      · rw [afterHandler_sd] at hs; exact absurd hsd hs
-      · rw [afterHandler_done] at hd
-        cases ho : c.transportOpen <;> simp [ho, hnd, isDone, List.any_append] at hd
-    | done =>
-      refine ⟨?_, ?_⟩
-      · intro _
-        have := h.force (by simp [hsd])
-        simp only [fire, afterHandler, this]
-        simp [hsd]
-      · have := h.force (by simp [hsd])
-        simp only [fire, afterHandler, this]
-        cases ho : c.transportOpen <;> simp [hsd, hnd, isDone, List.any_append]
-    | wait1 d =>
-      have hf := h.force (by simp [hsd])
-      have : fire c u .handlerDone = finishShutdown
-          { c with obs := c.obs ++ (if c.transportOpen then [.hr u, .resp u] else [.hr u]),
-                   cur := .idle, taskAlive := false } u := by
-        simp [fire, afterHandler, hf, hsd]
-      rw [this]
-      exact finishShutdown_sound _ _ rfl hf
-    | wait2 d =>
-      have hf := h.force (by simp [hsd])
-      have : fire c u .handlerDone = finishShutdown
-          { c with obs := c.obs ++ (if c.transportOpen then [.hr u, .resp u] else [.hr u]),
-                   cur := .idle, taskAlive := false } u := by
-        simp [fire, afterHandler, hf, hsd]
-      rw [this]
-      exact finishShutdown_sound _ _ rfl hf
+    have hR : ∀ (fc : Bool) (l : List Obs), (fc = true ∨ fc = c.forceClose) → l.any isDone = false →
+        Sound (requestDone { c with forceClose := fc, obs := c.obs ++ l } u) := by
+      intro fc l hfc hl
+      refine requestDone_sound _ _ ⟨fun hs => ?_, fun hd => ?_⟩ (by simp [List.any_append, hnd, hl])
+      · rcases hfc with rfl | rfl
+        · rfl
+        · exact h.force hs
+      · simp [List.any_append, hnd, hl] at hd
+    simp only [fire]
+    split
+    · split
+      · exact hR _ _ (Or.inr rfl) (by simp [isDone])
+      · exact hR _ _ (Or.inr rfl) (by simp)
+    · split
+      · exact hR _ _ (Or.inl rfl) (by simp [isDone])
+      · split
+        · exact hR _ _ (Or.inr rfl) (by simp [isDone])
+        · exact hR _ _ (Or.inr rfl) (by simp [isDone])
+    · split
+      · split
+        · exact hR _ _ (Or.inr rfl) (by simp [isDone])
+        · exact hR _ _ (Or.inr rfl) (by simp [isDone])
+      · exact ⟨fun hs => h.force hs, by simp [List.any_append, hnd, isDone]⟩
   | timeout =>
     cases hsd : c.sd with
     | none => simpa [fire, hsd] using h
@@ -535,6 +594,12 @@ theorem fire_sound (c : Conn) (u : Nat) (ev : Internal) (h : Sound c)
         simp only [fire, hsd, hc]
         exact ⟨fun _ => hf, by simp [hnd]⟩
       | sleeping f =>
+        simp only [fire, hsd, hc]
+        exact ⟨fun _ => hf, by simp [hnd]⟩
+      | sleepRead f =>
+        simp only [fire, hsd, hc]
+        exact ⟨fun _ => hf, by simp [hnd]⟩
+      | sending f =>
         simp only [fire, hsd, hc]
         exact ⟨fun _ => hf, by simp [hnd]⟩
     | wait2 d =>
@@ -650,16 +715,16 @@ since tick 3, shutdown at tick 16, `on_shutdown` handlers take 24 ticks (3 s): t
 is closed at tick 40, not at 16 (the documentation lists closing idle connections as step 2,
 before `on_shutdown`). -/
 theorem idle_open_until_on_shutdown_done :
-    (runConn 80 16 24 [(0, .recv [⟨.get, 3⟩])]).obs =
+    (runConn 80 16 24 [(0, .recv [⟨.get, 3, 0⟩])]).obs =
       [.hs 0, .hr 3, .resp 3, .close 40, .done 40] := by
   decide +kernel
 
 /-- **`shutdown_timeout = 0` disables both deadlines.**  A handler waiting for its body is
 never cancelled and `runner.cleanup()` never returns; a sleeping one is simply awaited. -/
 theorem zero_timeout_never_returns :
-    (runConn 0 16 0 [(8, .recv [⟨.postPart, 1⟩])]).obs = [.hs 8] ∧
-    returnTime 16 [runConn 0 16 0 [(8, .recv [⟨.postPart, 1⟩])]] = none ∧
-    (runConn 0 16 0 [(8, .recv [⟨.get, 801⟩])]).obs =
+    (runConn 0 16 0 [(8, .recv [⟨.postPart, 1, 0⟩])]).obs = [.hs 8] ∧
+    returnTime 16 [runConn 0 16 0 [(8, .recv [⟨.postPart, 1, 0⟩])]] = none ∧
+    (runConn 0 16 0 [(8, .recv [⟨.get, 801, 0⟩])]).obs =
       [.hs 8, .hr 809, .resp 809, .close 809, .done 809] := by
   decide +kernel
 
@@ -667,8 +732,28 @@ theorem zero_timeout_never_returns :
 `T = 10 s`, the client sends the rest at tick 24: the handler never gets it and is cancelled
 at tick 96 (first deadline); no response. -/
 theorem f20_body_dropped :
-    (runConn 80 16 0 [(8, .recv [⟨.postPart, 1⟩]), (24, .recvBody)]).obs =
+    (runConn 80 16 0 [(8, .recv [⟨.postPart, 1, 0⟩]), (24, .recvBody)]).obs =
       [.hs 8, .hx 96, .close 96, .done 96] := by
+  decide +kernel
+
+/-- **A handler that reads its (already buffered) body late, inside the timeout, completes.**
+`POST` whose whole body arrived with the head at tick 8, the handler reads it at tick 41,
+shutdown at 16 with `T = 10 s`: the body is still readable (`_current_request._cancel` only
+happens when the first timeout expires, tick 96), response complete at 41.  Read after tick
+96 it would be cancelled (second conjunct). -/
+theorem late_reader_within_timeout_completes :
+    (runConn 80 16 0 [(8, .recv [⟨.postLate, 33, 0⟩])]).obs =
+      [.hs 8, .hr 41, .resp 41, .close 41, .done 41] ∧
+    (runConn 80 16 0 [(8, .recv [⟨.postLate, 113, 0⟩])]).obs =
+      [.hs 8, .hx 121, .close 121, .done 121] := by
+  decide +kernel
+
+/-- **A streamed response that is being written at the shutdown moment is completed.**  The
+handler returned at tick 11 (before the shutdown at 16), its body takes until tick 41: the
+transport stays open (`close()` only sets `_close`), the complete response arrives at 41. -/
+theorem streamed_response_within_timeout_completes :
+    (runConn 80 16 0 [(8, .recv [⟨.get, 3, 30⟩])]).obs =
+      [.hs 8, .hr 11, .resp 41, .close 41, .done 41] := by
   decide +kernel
 
 /-! ## the hypotheses are satisfiable (non-vacuity) -/
@@ -676,14 +761,14 @@ theorem f20_body_dropped :
 /-- a reachable connection with a running handler (GET at tick 8, handler sleeps 33 ticks):
 hypotheses of `inflight_may_finish` and `cancelled_by_2T` -/
 example :
-    let c := step {} 8 (.recv [⟨.get, 33⟩])
+    let c := step {} 8 (.recv [⟨.get, 33, 0⟩])
     c.cur = .sleeping 41 ∧ c.transportOpen = true ∧ c.sd = .none ∧ c.forceClose = false ∧ c.cur ≠ .idle := by
   decide +kernel
 
 /-- a reachable connection whose handler waits for its body, marked by `pre_shutdown`:
 hypotheses of `inflight_body_never_completes` and `no_new_requests_after_shutdown` -/
 example :
-    let c := step (step {} 8 (.recv [⟨.postPart, 3⟩])) 16 .preShutdown
+    let c := step (step {} 8 (.recv [⟨.postPart, 3, 0⟩])) 16 .preShutdown
     c.closeFlag = true ∧ c.cur = .waitBody 3 := by
   decide +kernel
 
@@ -692,7 +777,7 @@ example : ({} : Conn).cur = .idle ∧ ({} : Conn).sd = .none ∧ ({} : Conn).tra
   decide
 
 /-- a scenario in which cleanup returns: hypothesis of `all_closed_when_cleanup_returns` -/
-example : returnTime (16 + 0) ([[(8, .recv [⟨.get, 33⟩])], []].map (runConn 80 16 0)) = some 41 := by
+example : returnTime (16 + 0) ([[(8, .recv [⟨.get, 33, 0⟩])], []].map (runConn 80 16 0)) = some 41 := by
   decide +kernel
 
 end Aio.C20.Drain
